@@ -1,5 +1,6 @@
 import Driver.Util
 import Driver.Hash
+import Driver.Codec
 
 open Driver
 
@@ -8,6 +9,7 @@ def main (args : List String) : IO UInt32 := do
   let lines ← readLines stdin #[]
   let rep ← match args with
     | ["hash"] => Driver.Hash.run lines
+    | ["codec"] => Driver.CodecEngine.run lines
     | _ => do IO.eprintln "usage: driver <engine> < trace"; return 2
   IO.println s!"SUMMARY lines={lines.size} checked={rep.checked} diffs={rep.diffs}"
   return 0
